@@ -573,8 +573,21 @@ impl Shape {
                             return other.clone();
                         }
                     }
+                    // Mark this pair as in progress first so that a constraint which refers
+                    // to itself on the way (e.g. `constraint a = a | 1;`) is not expanded
+                    // forever. A bare self-reference admits nothing new, so while the pair
+                    // is in progress it counts as a mismatch.
+                    let idx = seen.len();
+                    seen.push((
+                        cref.val.clone(),
+                        other.clone(),
+                        Shape::TypeErr(
+                            cref.pos.clone(),
+                            format!("Constraint '{}' refers to itself", cref.val),
+                        ),
+                    ));
                     let result = other.narrow_cached(&expanded, symbol_table, seen);
-                    seen.push((cref.val.clone(), other.clone(), result.clone()));
+                    seen[idx].2 = result.clone();
                     result
                 } else {
                     Shape::TypeErr(
